@@ -553,23 +553,439 @@ Proof.
   destruct (sd_last x D S) as (T & c & ED & Hc).
   assert (exists d0 tl, D = d0 :: tl) as (d0 & tl & E).
   { destruct D as [|d0 tl]; [destruct T; discriminate|eauto]. }
+  exists d0, tl. split; [exact E|]. clear ED Hc. subst D.
+  unfold fmtE. rewrite Htoa, Htrim. cbv beta iota zeta. unfold exp_digits, e_sign.
+  apply f_equal. apply f_equal. apply f_equal. f_equal.
+  unfold blen. rewrite !zlen_cons.
+  destruct tl as [|c1 tl1].
+  - reflexivity.
+  - set (n := zlen (c1 :: tl1)). assert (Hn : 1 <= n) by (unfold n; rewrite zlen_cons; pose proof (zlen_nonneg tl1); lia).
+    replace (0 <? n + 1 - 1) with true by (symmetry; apply Z.ltb_lt; lia).
+    replace (Z.min (n + 1) (n + 1 - 1 + 1)) with (n + 1) by lia.
+    replace (1 <? n + 1) with true by (symmetry; apply Z.ltb_lt; lia).
+    cbn [skipn]. replace (Z.to_nat (n + 1 - 1)) with (length (c1 :: tl1)) by (unfold n, zlen; lia).
+    rewrite firstn_all. replace (n + 1 - 1 - (n + 1) + 1) with 0 by lia.
+    unfold e_frac. cbn [zeros repeat Z.to_nat]. now rewrite app_nil_r.
+Qed.
+
+Definition sign_bytes (ng : bool) : bytes := if ng then [45] else [].
+
+Lemma text_e x D fmt : SigDigits x D -> dform x = Ffinite -> (fmt = 101 \/ fmt = 69) ->
+  exists d0 tl, D = d0 :: tl /\
+    Text x fmt (-1) =
+      Some (sign_bytes (neg x) ++ [d0] ++ e_frac tl ++ [fmt; e_sign (exp x - 1)] ++ exp_digits (exp x - 1)).
+Proof.
+  intros S Hf Hfmt.
+  destruct (fmtE_sig (sign_bytes (neg x)) x D fmt S Hf) as (d0 & tl & E & HE).
   exists d0, tl. split; [exact E|].
-  unfold fmtE. rewrite Htoa, Htrim. rewrite E at 1 2 3 4.
-  cbv beta iota zeta. unfold exp_digits, e_sign.
-  assert (Hfrac : (if 0 <? zlen D - 1
-                   then let m := Z.min (blen D) (zlen D - 1 + 1) in
-                        let ds := if 1 <? m then firstn (Z.to_nat (m - 1)) (skipn 1 D) else [] in
-                        let i := if 1 <? m then m else 1 in 46 :: ds ++ zeros (zlen D - 1 - i + 1)
-                   else []) = e_frac tl).
-  { rewrite E. rewrite zlen_cons. unfold blen. rewrite zlen_cons.
-    destruct tl as [|c1 tl1].
+  unfold Text, Append. rewrite Hf, (sd_minprec x D S).
+  destruct Hfmt as [-> | ->]; cbv beta iota zeta;
+    cbn [Z.eqb Pos.eqb is_eE is_gG orb andb Z.ltb Z.compare app];
+    rewrite (sd_minprec x D S); exact HE.
+Qed.
+
+(* Parse is Decimal.scan plus the end-of-input check unless the string spells an infinity *)
+Lemma Parse_scan z s base : (forall c t, s = c :: t -> c <> 73 /\ c <> 105 /\
+                               forall c2 t2, t = c2 :: t2 -> c2 <> 73 /\ c2 <> 105) ->
+  Parse z s base = match dscan_dec z s base with
+                   | POk z' b [] => POk z' b []
+                   | POk z' b (_ :: _) => PErr z' true
+                   | r => r
+                   end.
+Proof.
+  intros H. unfold Parse.
+  assert (Hno : forall u, (forall c t, u = c :: t -> c <> 73 /\ c <> 105) -> bytes_eqb u s_Inf || bytes_eqb u s_inf = false).
+  { intros u Hu. destruct u as [|c t]; [reflexivity|]. destruct (Hu c t eq_refl) as [A Bb].
+    unfold s_Inf, s_inf. cbn [bytes_eqb]. apply Z.eqb_neq in A, Bb. now rewrite A, Bb. }
+  rewrite Hno by (intros c t E; destruct (H c t E) as (A & Bb & _); auto).
+  destruct s as [|c t]; [reflexivity|].
+  destruct (H c t eq_refl) as (_ & _ & H2).
+  rewrite (Hno t) by (intros c2 t2 E; exact (H2 c2 t2 E)).
+  rewrite andb_false_r. reflexivity.
+Qed.
+
+Lemma digit_not_inf c : is_digit c = true -> c <> 73 /\ c <> 105 /\ c <> 43 /\ c <> 45.
+Proof. intros H. apply is_digit_iff in H. lia. Qed.
+
+(* C11 for the 'e' and 'E' formats: parsing Text(x, fmt, -1) into a receiver
+   of precision at least MinPrec x gives back x exactly *)
+Theorem roundtrip_e x z fmt :
+  WF x -> dform x = Ffinite -> (fmt = 101 \/ fmt = 69) ->
+  mdigits (mant x) < 4294967296 - 36 -> 0 <= prec z <= MaxPrec ->
+  let p := if prec z =? 0 then DefaultDecimalPrec else prec z in
+  (forall mp, MinPrec x = Some mp -> mp <= p) ->
+  exists t z', Text x fmt (-1) = Some t /\ Parse z t 10 = POk z' 10 [] /\
+    dform z' = Ffinite /\ neg z' = neg x /\ (mag z' == mag x)%Q /\ acc z' = Exact /\
+    prec z' = p /\ dmode z' = dmode z /\ WF z'.
+Proof.
+  intros Hwf Hf Hfmt Hlen Hprec p Hmp.
+  pose proof (WF_finite x Hwf Hf) as Hx.
+  destruct (sig_digits x Hx Hf) as (D & S).
+  destruct (text_e x D fmt S Hf Hfmt) as (d0 & tl & ED & Ht).
+  pose proof (sd_digits x D S) as HdD. pose proof (sd_range x D S) as Hrange.
+  destruct (sd_len x D S) as [HlD HlD2].
+  assert (Hd0 : is_digit d0 = true /\ all_digits tl = true).
+  { rewrite ED in HdD. cbn [all_digits forallb] in HdD. now apply andb_true_iff in HdD. }
+  destruct Hd0 as [Hd0 Htl].
+  destruct (exp_digits_spec (exp x - 1)) as (Hed & Hev & Hene).
+  destruct Hx as [Hne Hok Htop Hprecx Hexp Htail].
+  set (E := exp x - 1) in *.
+  set (tail := [fmt; e_sign E] ++ exp_digits E).
+  set (body := [d0] ++ e_frac tl ++ tail).
+  exists (sign_bytes (neg x) ++ body).
+  (* the three scanners on the printed string *)
+  assert (Hsign : scanSign (sign_bytes (neg x) ++ body) = Some (neg x, body)).
+  { unfold sign_bytes, body. destruct (neg x); cbn [app scanSign].
     - reflexivity.
-    - set (n := zlen (c1 :: tl1)). assert (Hn : 1 <= n) by (unfold n; rewrite zlen_cons; pose proof (zlen_nonneg tl1); lia).
-      replace (0 <? n + 1 - 1) with true by (symmetry; apply Z.ltb_lt; lia).
-      cbv zeta. replace (Z.min (n + 1) (n + 1 - 1 + 1)) with (n + 1) by lia.
-      replace (1 <? n + 1) with true by (symmetry; apply Z.ltb_lt; lia).
-      cbn [skipn]. replace (Z.to_nat (n + 1 - 1)) with (length (c1 :: tl1)) by (unfold n, zlen; lia).
-      rewrite firstn_all. replace (n + 1 - 1 - (n + 1) + 1) with 0 by lia.
-      unfold e_frac. cbn [zeros repeat Z.to_nat]. now rewrite app_nil_r. }
-  rewrite <- E. rewrite Hfrac. rewrite E. reflexivity.
+    - destruct (digit_facts d0 Hd0) as (_ & _ & E43 & E45 & _). now rewrite E45, E43. }
+  assert (Hes : e_sign E = 43 \/ e_sign E = 45) by (unfold e_sign; destruct (E <? 0); auto).
+  assert (HEabs : digval (exp_digits E) 0 <= MaxInt64).
+  { rewrite Hev. unfold MaxInt64, MinExp, MaxExp, E in *. lia. }
+  assert (Hscan : exists ds, dec_scan 10 body = Some ds /\ ds_err ds = false /\ ds_b ds = 10 /\
+            ds_val ds = digval D 0 /\ ds_rest ds = tail /\ Z.min (ds_count ds) 0 = 1 - zlen D /\ - 4294967296 < ds_count ds).
+  { rewrite dec_scan_10. eexists. split; [reflexivity|]. unfold body, tail.
+    assert (HzD : zlen D = zlen tl + 1) by (rewrite ED; apply zlen_cons).
+    destruct tl as [|c1 tl1].
+    - cbn [e_frac app]. change (d0 :: fmt :: e_sign E :: exp_digits E) with ([d0] ++ fmt :: e_sign E :: exp_digits E).
+      rewrite mant_e_int; [|cbn [all_digits forallb]; now rewrite Hd0|discriminate|exact Hfmt].
+      cbn [m_rest m_acc m_dp m_count m_inval m_prev ds_err ds_b ds_val ds_rest ds_count].
+      rewrite ED. cbn [zlen length digval]. repeat split; try reflexivity; lia.
+    - cbn [e_frac app]. change (d0 :: 46 :: c1 :: tl1 ++ fmt :: e_sign E :: exp_digits E)
+        with ([d0] ++ 46 :: (c1 :: tl1) ++ fmt :: e_sign E :: exp_digits E).
+      rewrite mant_e_frac; [|cbn [all_digits forallb]; now rewrite Hd0|discriminate|exact Htl|discriminate|exact Hfmt].
+      cbn [m_rest m_acc m_dp m_count m_inval m_prev ds_err ds_b ds_val ds_rest ds_count].
+      rewrite ED. change (zlen [d0]) with 1. rewrite (zlen_cons d0).
+      pose proof (zlen_nonneg (c1 :: tl1)).
+      replace (0 <=? 1) with true by reflexivity.
+      replace (1 + zlen (c1 :: tl1) =? 0) with false by (symmetry; apply Z.eqb_neq; lia).
+      repeat split; try reflexivity; lia. }
+  destruct Hscan as (ds & Hds & Herr & Hb & Hval & Hrest & Hcnt & Hcnt2).
+  assert (Hsx : scanExponent (10 =? 0) (ds_rest ds) = mkES [] E 10 false).
+  { rewrite Hrest. unfold tail. cbn [app].
+    rewrite scanExponent_form by assumption. f_equal.
+    rewrite Hev. unfold e_sign. destruct (Z.ltb_spec E 0).
+    - change (45 =? 45) with true. cbv iota. lia.
+    - change (43 =? 45) with false. cbv iota. lia. }
+  assert (Hv : 0 < ds_val ds).
+  { rewrite Hval. assert (0 < 10 ^ (zlen D - 1)) by (apply Z.pow_pos_nonneg; lia). lia. }
+  assert (Hnd : ndig (ds_val ds) = zlen D) by (rewrite Hval; apply ndig_digits; assumption).
+  pose proof (parse10_correct z (sign_bytes (neg x) ++ body) 10 (neg x) body ds Hsign Hds Herr Hb) as HP.
+  rewrite Hsx in HP. cbn [es_err es_base es_exp es_rest] in HP.
+  specialize (HP eq_refl eq_refl Hv ltac:(rewrite Hnd; lia) Hcnt2 Hprec).
+  cbv zeta in HP. destruct HP as [HP _]. rewrite Hcnt, Hnd in HP.
+  destruct (HP ltac:(unfold E; lia)) as (z' & Hrun & Hspec & Hp' & Hm' & Hwf').
+  exists z'. split; [exact Ht|]. split.
+  - rewrite Parse_scan.
+    + rewrite Hrun. reflexivity.
+    + intros c t Ect. unfold sign_bytes, body in Ect.
+      destruct (digit_not_inf d0 Hd0) as (A1 & A2 & _).
+      destruct (neg x); cbn [app] in Ect; injection Ect as <- <-.
+      * split; [lia|]. split; [lia|]. intros c2 t2 E2. injection E2 as <- _. auto.
+      * split; [exact A1|]. split; [exact A2|]. intros c2 t2 E2.
+        destruct tl as [|c1 tl1]; cbn [e_frac app] in E2; injection E2 as <- _.
+        -- destruct Hfmt as [-> | ->]; lia.
+        -- lia.
+  - fold p in Hspec, Hp'.
+    assert (Hmpx : zlen D <= p) by (apply Hmp; exact (sd_minprec x D S)).
+    rewrite Hval in Hspec.
+    destruct (result_spec_exact p (dmode z) (neg x) (digval D 0) (1 - zlen D + E) z') as (A1 & A2 & A3 & A4).
+    + rewrite <- Hval. exact Hv.
+    + rewrite <- Hval, Hnd. exact Hmpx.
+    + rewrite <- Hval, Hnd. unfold E. lia.
+    + exact Hspec.
+    + split; [exact A2|]. split; [exact A1|]. split.
+      * rewrite A3. rewrite (mag_sig x D S). apply (scaled_eq_gen _ _ _ _ (exp x - zlen D)); unfold E; try lia.
+        f_equal. f_equal. lia.
+      * split; [exact A4|]. split; [exact Hp'|]. split; [exact Hm'|exact Hwf'].
+Qed.
+
+(* C11_digits for 'e'/'E': the printed mantissa is d0 . tl where d0 :: tl are
+   exactly the MinPrec significant digits of the stored mantissa *)
+Theorem digits_e x fmt : WF x -> dform x = Ffinite -> (fmt = 101 \/ fmt = 69) ->
+  exists d0 tl,
+    all_digits (d0 :: tl) = true /\ d0 <> 48 /\ last (d0 :: tl) 0 <> 48 /\
+    MinPrec x = Some (zlen (d0 :: tl)) /\
+    val (mant x) = digval (d0 :: tl) 0 * 10 ^ (mdigits (mant x) - zlen (d0 :: tl)) /\
+    Text x fmt (-1) =
+      Some (sign_bytes (neg x) ++ [d0] ++ e_frac tl ++ [fmt; e_sign (exp x - 1)] ++ exp_digits (exp x - 1)).
+Proof.
+  intros Hwf Hf Hfmt. pose proof (WF_finite x Hwf Hf) as Hx.
+  destruct (sig_digits x Hx Hf) as (D & S).
+  destruct (text_e x D fmt S Hf Hfmt) as (d0 & tl & ED & Ht).
+  exists d0, tl. rewrite <- ED.
+  split; [exact (sd_digits x D S)|]. split; [|split].
+  - (* leading digit: the value has zlen D digits *)
+    intros E0. pose proof (sd_range x D S) as [Hlo _]. destruct (sd_len x D S) as [Hl _].
+    pose proof (sd_digits x D S) as Hd. rewrite ED, E0 in *.
+    cbn [all_digits forallb] in Hd. apply andb_true_iff in Hd as [_ Hd].
+    pose proof (digval_bounds tl Hd) as [_ Hhi].
+    cbn [digval] in Hlo. change (0 * 10 + (48 - 48)) with 0 in Hlo.
+    rewrite zlen_cons in Hlo. replace (zlen tl + 1 - 1) with (zlen tl) in Hlo by lia. lia.
+  - destruct (sd_last x D S) as (T & c & E & Hc). rewrite E, last_last. exact Hc.
+  - split; [exact (sd_minprec x D S)|]. split; [exact (sd_val x D S)|exact Ht].
+Qed.
+
+(* ------------------------------------------------------------------ *)
+(* parsing  [-] I [ . F ] (e|E) (+|-) digits  in base 10 *)
+
+Definition opt_frac (F : bytes) : bytes := match F with [] => [] | _ => 46 :: F end.
+
+Lemma parse_efloat z ng I F fch sg eds :
+  all_digits I = true -> I <> [] -> all_digits F = true -> (fch = 101 \/ fch = 69) ->
+  (sg = 43 \/ sg = 45) -> all_digits eds = true -> eds <> [] -> digval eds 0 <= 1099511627776 ->
+  let s := sign_bytes ng ++ I ++ opt_frac F ++ fch :: sg :: eds in
+  let v := digval (I ++ F) 0 in
+  let e := (if sg =? 45 then - digval eds 0 else digval eds 0) - zlen F in
+  0 < v -> ndig v + 18 < 4294967296 - 18 -> zlen F < 4294967296 -> 0 <= prec z <= MaxPrec ->
+  MinExp <= ndig v + e <= MaxExp ->
+  let p := if prec z =? 0 then DefaultDecimalPrec else prec z in
+  exists z', Parse z s 10 = POk z' 10 [] /\
+    result_spec p (dmode z) ng (scaled v e) z' /\ prec z' = p /\ dmode z' = dmode z /\ WF z'.
+Proof.
+  intros HI HneI HF Hfmt Hsg Hed Hene Hemax s v e Hv Hlen HlenF Hprec HE p.
+  set (tail := fch :: sg :: eds).
+  set (body := I ++ opt_frac F ++ tail).
+  assert (exists i0 I0, I = i0 :: I0) as (i0 & I0 & EI) by (destruct I; [congruence|eauto]).
+  assert (Hi0 : is_digit i0 = true).
+  { rewrite EI in HI. cbn [all_digits forallb] in HI. now apply andb_true_iff in HI as [H _]. }
+  assert (Hsign : scanSign (sign_bytes ng ++ body) = Some (ng, body)).
+  { unfold sign_bytes, body. rewrite EI. destruct ng; cbn [app scanSign].
+    - reflexivity.
+    - destruct (digit_facts i0 Hi0) as (_ & _ & E43 & E45 & _). now rewrite E45, E43. }
+  assert (Hscan : exists ds, dec_scan 10 body = Some ds /\ ds_err ds = false /\ ds_b ds = 10 /\
+            ds_val ds = v /\ ds_rest ds = tail /\ Z.min (ds_count ds) 0 = - zlen F /\ - 4294967296 < ds_count ds).
+  { rewrite dec_scan_10. eexists. split; [reflexivity|]. unfold body, tail.
+    assert (HzI : 1 <= zlen I) by (rewrite EI, zlen_cons; pose proof (zlen_nonneg I0); lia).
+    destruct F as [|f0 F0].
+    - cbn [opt_frac app]. rewrite mant_e_int by assumption.
+      cbn [m_rest m_acc m_dp m_count m_inval m_prev ds_err ds_b ds_val ds_rest ds_count].
+      unfold v. rewrite app_nil_r. change (zlen (@nil Z)) with 0.
+      replace (0 <=? -1) with false by reflexivity.
+      replace (zlen I =? 0) with false by (symmetry; apply Z.eqb_neq; lia).
+      repeat split; try reflexivity; lia.
+    - cbn [opt_frac]. set (F := f0 :: F0) in *.
+      change (I ++ (46 :: F) ++ fch :: sg :: eds) with (I ++ 46 :: F ++ fch :: sg :: eds).
+      rewrite mant_e_frac; [|assumption|assumption|assumption|discriminate|assumption].
+      cbn [m_rest m_acc m_dp m_count m_inval m_prev ds_err ds_b ds_val ds_rest ds_count].
+      pose proof (zlen_nonneg F).
+      replace (0 <=? zlen I) with true by (symmetry; apply Z.leb_le; lia).
+      replace (zlen I + zlen F =? 0) with false by (symmetry; apply Z.eqb_neq; lia).
+      repeat split; try reflexivity; lia. }
+  destruct Hscan as (ds & Hds & Herr & Hb & Hval & Hrest & Hcnt & Hcnt2).
+  assert (Hsx : scanExponent (10 =? 0) (ds_rest ds) =
+                mkES [] (if sg =? 45 then - digval eds 0 else digval eds 0) 10 false).
+  { rewrite Hrest. unfold tail. apply scanExponent_form; try assumption. unfold MaxInt64. lia. }
+  pose proof (parse10_correct z (sign_bytes ng ++ body) 10 ng body ds Hsign Hds Herr Hb) as HP.
+  rewrite Hsx in HP. cbn [es_err es_base es_exp es_rest] in HP.
+  rewrite Hval in HP.
+  specialize (HP eq_refl eq_refl Hv Hlen Hcnt2 Hprec).
+  cbv zeta in HP. destruct HP as [HP _]. rewrite Hcnt in HP.
+  replace (- zlen F + (if sg =? 45 then - digval eds 0 else digval eds 0)) with e in HP by (unfold e; lia).
+  destruct (HP HE) as (z' & Hrun & Hspec & Hp' & Hm' & Hwf').
+  exists z'. split; [|auto].
+  unfold s. fold tail. fold body. rewrite Parse_scan.
+  - rewrite Hrun. reflexivity.
+  - intros c t Ect. unfold sign_bytes, body in Ect. rewrite EI in Ect.
+    destruct (digit_not_inf i0 Hi0) as (A1 & A2 & _).
+    destruct ng; cbn [app] in Ect; injection Ect as <- <-.
+    + split; [lia|]. split; [lia|]. intros c2 t2 E2. injection E2 as <- _. auto.
+    + split; [exact A1|]. split; [exact A2|]. intros c2 t2 E2.
+      destruct I0 as [|i1 I1].
+      * destruct F as [|f0 F0]; cbn [opt_frac app] in E2; injection E2 as <- _.
+        -- unfold tail. destruct Hfmt as [-> | ->]; lia.
+        -- lia.
+      * cbn [app] in E2. injection E2 as <- _.
+        rewrite EI in HI. cbn [all_digits forallb] in HI. apply andb_true_iff in HI as [_ HI].
+        apply andb_true_iff in HI as [HI _]. destruct (digit_not_inf i1 HI) as (B1 & B2 & _). auto.
+Qed.
+
+(* ------------------------------------------------------------------ *)
+(* the 'p' format *)
+
+Definition pb_sign (e : Z) : Z := if e <? 0 then 45 else 43.
+
+Lemma pb_exp e : [101] ++ (if 0 <=? e then [43] else []) ++ itoa e = 101 :: pb_sign e :: itoa_nonneg (Z.abs e).
+Proof.
+  unfold itoa, pb_sign. destruct (Z.leb_spec 0 e); destruct (Z.ltb_spec e 0); try lia; cbn [app].
+  - now rewrite Z.abs_eq by lia.
+  - now rewrite Z.abs_neq by lia.
+Qed.
+
+Lemma pb_exp_val e : (if pb_sign e =? 45 then - digval (itoa_nonneg (Z.abs e)) 0 else digval (itoa_nonneg (Z.abs e)) 0) = e.
+Proof.
+  destruct (itoa_nonneg_spec (Z.abs e) ltac:(lia)) as (_ & Hv & _). rewrite Hv.
+  unfold pb_sign. destruct (Z.ltb_spec e 0); cbn [Z.eqb Pos.eqb]; lia.
+Qed.
+
+Lemma text_p x D : SigDigits x D -> dform x = Ffinite ->
+  Text x 112 (-1) = Some (sign_bytes (neg x) ++ [48] ++ opt_frac D ++ 101 :: pb_sign (exp x) :: itoa_nonneg (Z.abs (exp x))).
+Proof.
+  intros S Hf. destruct (sd_toa x D S) as (t & Ht & Htoa & Htrim & _).
+  destruct (sd_last x D S) as (T & c & ED & _).
+  unfold Text, Append. rewrite Hf. cbn [Z.eqb Pos.eqb app].
+  unfold fmtP. rewrite Hf, Htoa, Htrim. f_equal.
+  rewrite <- pb_exp. unfold sign_bytes, opt_frac.
+  destruct D as [|d0 tl]; [destruct T; discriminate|]. cbn [app].
+  destruct (neg x); reflexivity.
+Qed.
+
+Lemma result_spec_ext' p md ng v v' z : (v == v')%Q -> result_spec p md ng v z -> result_spec p md ng v' z.
+Proof. apply result_spec_ext. Qed.
+
+Theorem roundtrip_p x z :
+  WF x -> dform x = Ffinite ->
+  mdigits (mant x) < 4294967296 - 36 -> 0 <= prec z <= MaxPrec ->
+  let p := if prec z =? 0 then DefaultDecimalPrec else prec z in
+  (forall mp, MinPrec x = Some mp -> mp <= p) ->
+  exists t z', Text x 112 (-1) = Some t /\ Parse z t 10 = POk z' 10 [] /\
+    dform z' = Ffinite /\ neg z' = neg x /\ (mag z' == mag x)%Q /\ acc z' = Exact /\
+    prec z' = p /\ dmode z' = dmode z /\ WF z'.
+Proof.
+  intros Hwf Hf Hlen Hprec p Hmp.
+  pose proof (WF_finite x Hwf Hf) as Hx.
+  destruct (sig_digits x Hx Hf) as (D & S).
+  pose proof (text_p x D S Hf) as Ht.
+  pose proof (sd_digits x D S) as HdD. pose proof (sd_range x D S) as Hrange.
+  destruct (sd_len x D S) as [HlD HlD2].
+  destruct Hx as [Hne Hok Htop Hprecx Hexp Htail].
+  destruct (itoa_nonneg_spec (Z.abs (exp x)) ltac:(lia)) as (Hed & Hev & Hene).
+  assert (Hv0 : digval ([48] ++ D) 0 = digval D 0) by reflexivity.
+  assert (Hnd : ndig (digval D 0) = zlen D) by (apply ndig_digits; assumption).
+  assert (Hpos : 0 < digval D 0).
+  { assert (0 < 10 ^ (zlen D - 1)) by (apply Z.pow_pos_nonneg; lia). lia. }
+  assert (Hsg : pb_sign (exp x) = 43 \/ pb_sign (exp x) = 45) by (unfold pb_sign; destruct (exp x <? 0); auto).
+  assert (Hemax : digval (itoa_nonneg (Z.abs (exp x))) 0 <= 1099511627776) by (rewrite Hev; unfold MinExp, MaxExp in *; lia).
+  pose proof (parse_efloat z (neg x) [48] D 101 (pb_sign (exp x)) (itoa_nonneg (Z.abs (exp x)))
+                eq_refl ltac:(discriminate) HdD (or_introl eq_refl) Hsg Hed Hene Hemax) as HP.
+  cbv zeta in HP. rewrite Hv0, Hnd, pb_exp_val in HP.
+  destruct (HP Hpos ltac:(lia) ltac:(lia) Hprec ltac:(lia)) as (z' & Hrun & Hspec & Hp' & Hm' & Hwf').
+  fold p in Hspec, Hp'.
+  exists (sign_bytes (neg x) ++ [48] ++ opt_frac D ++ 101 :: pb_sign (exp x) :: itoa_nonneg (Z.abs (exp x))), z'.
+  split; [exact Ht|]. split; [exact Hrun|].
+  assert (Hmpx : zlen D <= p) by (apply Hmp; exact (sd_minprec x D S)).
+  destruct (result_spec_exact p (dmode z) (neg x) (digval D 0) (exp x - zlen D) z') as (A1 & A2 & A3 & A4);
+    try assumption; try lia.
+  split; [exact A2|]. split; [exact A1|]. split; [rewrite A3; symmetry; apply (mag_sig x D S)|].
+  split; [exact A4|]. auto.
+Qed.
+
+(* ------------------------------------------------------------------ *)
+(* the 'b' format *)
+
+Lemma zeros_app a b : 0 <= a -> 0 <= b -> zeros a ++ zeros b = zeros (a + b).
+Proof. intros. unfold zeros. rewrite <- repeat_app. f_equal. lia. Qed.
+
+Lemma firstn_zeros k t : 0 <= k <= t -> firstn (Z.to_nat k) (zeros t) = zeros k.
+Proof.
+  intros H. unfold zeros.
+  assert (G : forall n m, (n <= m)%nat -> firstn n (repeat 48 m) = repeat 48 n).
+  { induction n as [|n IH]; intros m Hm; [reflexivity|]. destruct m as [|m]; [lia|].
+    cbn [repeat firstn]. f_equal. apply IH. lia. }
+  apply G. lia.
+Qed.
+
+Lemma firstn_D_zeros (D : bytes) k t : zlen D <= k <= zlen D + t ->
+  firstn (Z.to_nat k) (D ++ zeros t) = D ++ zeros (k - zlen D).
+Proof.
+  intros H. pose proof (zlen_nonneg D).
+  rewrite firstn_app. rewrite firstn_all2 by (unfold zlen in *; lia).
+  f_equal. replace (Z.to_nat k - length D)%nat with (Z.to_nat (k - zlen D)) by (unfold zlen; lia).
+  apply firstn_zeros. lia.
+Qed.
+
+Lemma minprec_le_prec x D : WFfin x -> SigDigits x D -> zlen D <= prec x.
+Proof.
+  intros [Hne Hok Htop Hprec Hexp Htail] S.
+  destruct (sd_len x D S) as [H1 H2]. destruct Htail as [T|T]; [lia|].
+  destruct (Z.le_gt_cases (zlen D) (prec x)) as [|Hgt]; [assumption|exfalso].
+  destruct (sd_last x D S) as (T0 & c & ED & Hc).
+  pose proof (sd_digits x D S) as Hd. rewrite ED, all_digits_app in Hd. apply andb_true_iff in Hd as [_ Hd].
+  cbn in Hd. rewrite andb_true_r in Hd. apply is_digit_iff in Hd.
+  set (L := mdigits (mant x)) in *. set (j := L - zlen D).
+  assert (Hval : val (mant x) = digval D 0 * 10 ^ j) by (apply (sd_val x D S)).
+  assert (Hj : 0 <= j) by (unfold j; lia).
+  (* 10^(j+1) divides val, hence 10 divides digval D *)
+  assert (Hdiv : val (mant x) mod 10 ^ (j + 1) = 0).
+  { apply (mod_pow10_weaken _ (L - prec x)); [unfold j; lia|exact T]. }
+  rewrite Hval, Z.pow_add_r, Z.pow_1_r in Hdiv by lia.
+  assert (HP : 0 < 10 ^ j) by (apply Z.pow_pos_nonneg; lia).
+  rewrite (Z.mul_comm (10 ^ j) 10), Z.mul_mod_distr_r in Hdiv by lia.
+  assert (Hm : digval D 0 mod 10 = 0) by nia.
+  rewrite ED, digval_snoc, Z.add_comm, Z.mod_add, Z.mod_small in Hm by lia. lia.
+Qed.
+
+Lemma text_b x D : WFfin x -> SigDigits x D -> dform x = Ffinite ->
+  Text x 98 (-1) = Some (sign_bytes (neg x) ++ (D ++ zeros (prec x - zlen D)) ++ opt_frac [] ++
+                         101 :: pb_sign (exp x - prec x) :: itoa_nonneg (Z.abs (exp x - prec x))).
+Proof.
+  intros Hx S Hf. destruct (sd_toa x D S) as (t & Ht & Htoa & Htrim & Hlt).
+  pose proof (minprec_le_prec x D Hx S) as Hle. pose proof (zlen_nonneg D) as HzD.
+  unfold Text, Append. rewrite Hf. cbn [Z.eqb Pos.eqb app].
+  unfold fmtB. rewrite Hf, Htoa. f_equal. cbn [opt_frac app].
+  rewrite <- pb_exp. unfold blen. rewrite !zlen_app, zeros_len by lia.
+  assert (E : (if prec x <? zlen D + t then firstn (Z.to_nat (prec x)) (D ++ zeros t) else D ++ zeros t) ++
+              zeros (prec x - zlen (if prec x <? zlen D + t then firstn (Z.to_nat (prec x)) (D ++ zeros t) else D ++ zeros t))
+              = D ++ zeros (prec x - zlen D)).
+  { destruct (Z.ltb_spec (prec x) (zlen D + t)).
+    - rewrite firstn_D_zeros by lia. rewrite zlen_app, zeros_len by lia.
+      replace (prec x - (zlen D + (prec x - zlen D))) with 0 by lia.
+      change (zeros 0) with (@nil Z). now rewrite app_nil_r.
+    - rewrite zlen_app, zeros_len by lia. rewrite <- app_assoc, zeros_app by lia.
+      f_equal. f_equal. lia. }
+  rewrite <- E. unfold sign_bytes. rewrite <- !app_assoc. reflexivity.
+Qed.
+
+Theorem roundtrip_b x z :
+  WF x -> dform x = Ffinite ->
+  mdigits (mant x) < 4294967296 - 36 -> prec x < 4294967296 - 36 -> 0 <= prec z <= MaxPrec ->
+  let p := if prec z =? 0 then DefaultDecimalPrec else prec z in
+  (forall mp, MinPrec x = Some mp -> mp <= p) ->
+  exists t z', Text x 98 (-1) = Some t /\ Parse z t 10 = POk z' 10 [] /\
+    dform z' = Ffinite /\ neg z' = neg x /\ (mag z' == mag x)%Q /\ acc z' = Exact /\
+    prec z' = p /\ dmode z' = dmode z /\ WF z'.
+Proof.
+  intros Hwf Hf Hlen Hxp Hprec p Hmp.
+  pose proof (WF_finite x Hwf Hf) as Hx.
+  destruct (sig_digits x Hx Hf) as (D & S).
+  pose proof (text_b x D Hx S Hf) as Ht.
+  pose proof (minprec_le_prec x D Hx S) as Hle.
+  pose proof (sd_digits x D S) as HdD. pose proof (sd_range x D S) as Hrange.
+  destruct (sd_len x D S) as [HlD HlD2].
+  destruct Hx as [Hne Hok Htop Hprecx Hexp Htail].
+  set (e' := exp x - prec x) in *. set (j := prec x - zlen D) in *.
+  destruct (itoa_nonneg_spec (Z.abs e') ltac:(lia)) as (Hed & Hev & Hene).
+  assert (HI : all_digits (D ++ zeros j) = true) by (rewrite all_digits_app, HdD, all_digits_zeros; reflexivity).
+  assert (HneI : D ++ zeros j <> []).
+  { destruct D; [change (zlen (@nil Z)) with 0 in HlD; lia|discriminate]. }
+  assert (Hv0 : digval ((D ++ zeros j) ++ []) 0 = digval D 0 * 10 ^ j).
+  { rewrite app_nil_r, digval_app, digval_zeros by (unfold j; lia). reflexivity. }
+  assert (HPj : 0 < 10 ^ j) by (apply Z.pow_pos_nonneg; unfold j; lia).
+  assert (Hpos : 0 < digval D 0).
+  { assert (0 < 10 ^ (zlen D - 1)) by (apply Z.pow_pos_nonneg; lia). lia. }
+  assert (Hnd : ndig (digval D 0 * 10 ^ j) = prec x).
+  { apply ndig_unique; [lia|]. destruct Hrange as [Hlo Hhi].
+    assert (E1 : 10 ^ (prec x - 1) = 10 ^ (zlen D - 1) * 10 ^ j).
+    { rewrite <- Z.pow_add_r by (unfold j; lia). f_equal. unfold j. lia. }
+    assert (E2 : 10 ^ prec x = 10 ^ zlen D * 10 ^ j).
+    { rewrite <- Z.pow_add_r by (unfold j; lia). f_equal. unfold j. lia. }
+    rewrite E1, E2. nia. }
+  assert (Hsg : pb_sign e' = 43 \/ pb_sign e' = 45) by (unfold pb_sign; destruct (e' <? 0); auto).
+  assert (Hemax : digval (itoa_nonneg (Z.abs e')) 0 <= 1099511627776).
+  { rewrite Hev. unfold e', MinExp, MaxExp, MaxPrec in *. lia. }
+  pose proof (parse_efloat z (neg x) (D ++ zeros j) [] 101 (pb_sign e') (itoa_nonneg (Z.abs e'))
+                HI HneI eq_refl (or_introl eq_refl) Hsg Hed Hene Hemax) as HP.
+  cbv zeta in HP. rewrite Hv0, Hnd, pb_exp_val in HP. change (zlen (@nil Z)) with 0 in HP. rewrite Z.sub_0_r in HP.
+  destruct (HP ltac:(nia) ltac:(lia) ltac:(lia) Hprec ltac:(unfold e'; lia)) as (z' & Hrun & Hspec & Hp' & Hm' & Hwf').
+  fold p in Hspec, Hp'.
+  eexists. exists z'. split; [exact Ht|]. split; [exact Hrun|].
+  assert (Hmpx : zlen D <= p) by (apply Hmp; exact (sd_minprec x D S)).
+  assert (EQ : (scaled (digval D 0 * 10 ^ j) e' == scaled (digval D 0) (exp x - zlen D))%Q).
+  { rewrite scaled_pow by (unfold j; lia). apply (scaled_eq_gen _ _ _ _ (exp x - zlen D)); unfold e', j; try lia.
+    f_equal. f_equal. lia. }
+  apply (result_spec_ext' _ _ _ _ _ _ EQ) in Hspec.
+  assert (HndD : ndig (digval D 0) = zlen D) by (apply ndig_digits; assumption).
+  destruct (result_spec_exact p (dmode z) (neg x) (digval D 0) (exp x - zlen D) z') as (A1 & A2 & A3 & A4);
+    try assumption; try lia.
+  split; [exact A2|]. split; [exact A1|]. split; [rewrite A3; symmetry; apply (mag_sig x D S)|].
+  split; [exact A4|]. auto.
 Qed.
